@@ -10,7 +10,9 @@
 // memoises lazily, in the document or anywhere else, is initialised under concurrency).  Only
 // AFTERWARDS the single-threaded observations of every call sequence are computed, on yet another
 // fresh instance; every goroutine's observations must equal them.  A data race makes the runtime
-// print its report and exit 66.
+// print its report and exit 66.  A case may name serialisations of OTHER documents that fail part-way
+// (`pre`): they are performed in every round after the goroutines have been created and before they are
+// released, so the readers run in whatever state a failed call leaves behind.
 package main
 
 import (
@@ -50,6 +52,7 @@ func main() {
 	for i, cs := range cases {
 		fmt.Printf("CASE %d\n", i)
 		os.Stdout.Sync()
+		cs.D1 = c20lib.Padded(cs.D1, cs.Pad)
 		rep := cs.Repeat
 		if rep < 1 {
 			rep = 1
@@ -67,6 +70,11 @@ func main() {
 					<-start
 					got[g] = hashObs(subj, cs.Seqs[g])
 				}(g)
+			}
+			// calls of the serialisation API that FAIL part-way, on other documents, precede the readers: whatever a
+			// failed call leaves behind (package-level state, pooled buffers) is there when they start
+			for _, f := range cs.Pre {
+				f.Run()
 			}
 			close(start)
 			wg.Wait()
